@@ -498,6 +498,8 @@ def gen(seed, path="holder") -> dict:
                 x = g.choice(touched) if touched and g.random() < 0.8 else g.choice(universe)
                 fresh = [u for u in universe + ["e", "f"] if u != x]
                 y = g.choice(fresh)
+                if any(px == x for px, _py in pairs):
+                    continue  # one statement cannot rename the same table twice (the second pair would be invalid SQL)
                 pairs.append([x, y])
             ops.append(["rename", pairs])
             for x, y in pairs:
